@@ -1563,6 +1563,9 @@ def np_clip(a, a_min=None, a_max=None, out=None, **kw):
         r = elementwise("maximum", (r, a_min))
     if a_max is not None:
         r = elementwise("minimum", (r, a_max))
+    if out is not None:
+        out[...] = r
+        return out
     return r
 
 
